@@ -21,6 +21,20 @@ pub struct C03Case {
     pub ext: String,
 }
 
+/// Byte-level fuzzing: the bytes are the note (lossy UTF-8); the first byte picks the extension
+/// setting and whether line endings are turned into CRLF.
+pub fn raw_case(data: &[u8]) -> C03Case {
+    let (flag, body) = match data.split_first() {
+        Some((f, b)) => (*f, b),
+        None => (0, data),
+    };
+    let mut text = String::from_utf8_lossy(body).to_string();
+    if flag & 2 != 0 {
+        text = text.replace('\n', "\r\n");
+    }
+    C03Case { text, scale: None, ext: if flag & 1 != 0 { ".md".into() } else { String::new() } }
+}
+
 pub fn scale_text(kind: u8, n: u32) -> String {
     let n = n as usize;
     let mut s = String::new();
